@@ -393,6 +393,173 @@ theorem Rel.builtinCall2 (b : Builtin) (ts : List TId) (d1 : Nat) :
     | exact Rel.recStr hrec _
     | exact Rel.coerceToString hrec _ _
 
+omit hle in
+theorem Rel.forceAll (ts : List TId) (d1 : Nat) : Rel (forceAll r ts d1) (forceAll r' ts d1) := by
+  unfold Rsj.Eval.forceAll
+  rel_all hle hrec
+
+omit hle in
+theorem Rel.coerceAll (vals : List Value) (d1 : Nat) : Rel (coerceAll r vals d1) (coerceAll r' vals d1) := by
+  unfold Rsj.Eval.coerceAll
+  rel_all hle hrec
+  all_goals exact Rel.coerceToString hrec _ _
+
+omit hle in
+theorem Rel.forceBytes (items : List TId) (item : PArg → Except PErr Nat) (d1 : Nat) :
+    Rel (forceBytes r items item d1) (forceBytes r' items item d1) := by
+  unfold Rsj.Eval.forceBytes
+  rel_all hle hrec
+
+omit hle in
+theorem Rel.fmtForceOpt (t : Option TId) (d : Nat) : Rel (fmtForceOpt r t d) (fmtForceOpt r' t d) := by
+  unfold Rsj.Eval.fmtForceOpt
+  rel_all hle hrec
+
+omit hle in
+theorem Rel.fmtItem (c : Format.Code) (v : Value) (d : Nat) : Rel (fmtItem r c v d) (fmtItem r' c v d) := by
+  unfold Rsj.Eval.fmtItem
+  rel_all hle hrec
+  all_goals first
+    | exact Rel.coerceToString hrec _ _
+    | exact Rel.recStr hrec _
+
+omit hle in
+theorem Rel.fmtArrayCode (c : Format.Code) (items : List TId) (i d : Nat) :
+    Rel (fmtArrayCode r c items i d) (fmtArrayCode r' c items i d) := by
+  unfold Rsj.Eval.fmtArrayCode
+  rel_all hle hrec
+  all_goals first
+    | exact Rel.fmtForceOpt hrec _ _
+    | exact Rel.fmtItem hrec _ _ _
+    | exact Rel.coerceToString hrec _ _
+    | exact Rel.recStr hrec _
+
+omit hle in
+theorem Rel.fmtArrayPart (p : Format.Part) (items : List TId) (i : Nat) (out : List Char) (d : Nat) :
+    Rel (fmtArrayPart r p items i out d) (fmtArrayPart r' p items i out d) := by
+  unfold Rsj.Eval.fmtArrayPart
+  rel_all hle hrec
+  all_goals first
+    | exact Rel.fmtArrayCode hrec _ _ _ _
+    | exact Rel.fmtForceOpt hrec _ _
+    | exact Rel.fmtItem hrec _ _ _
+    | exact Rel.coerceToString hrec _ _
+    | exact Rel.recStr hrec _
+
+omit hle in
+theorem Rel.fmtArray (parts : List Format.Part) (items : List TId) (d : Nat) :
+    Rel (fmtArray r parts items d) (fmtArray r' parts items d) := by
+  unfold Rsj.Eval.fmtArray
+  rel_all hle hrec
+  all_goals first
+    | exact Rel.fmtArrayPart hrec _ _ _ _ _
+    | exact Rel.fmtArrayCode hrec _ _ _ _
+    | exact Rel.fmtForceOpt hrec _ _
+    | exact Rel.fmtItem hrec _ _ _
+    | exact Rel.coerceToString hrec _ _
+    | exact Rel.recStr hrec _
+
+omit hle in
+theorem Rel.fmtObjectCode (c : Format.Code) (o : OId) (d : Nat) :
+    Rel (fmtObjectCode r c o d) (fmtObjectCode r' c o d) := by
+  unfold Rsj.Eval.fmtObjectCode
+  rel_all hle hrec
+  all_goals first
+    | exact Rel.fmtItem hrec _ _ _
+    | exact Rel.coerceToString hrec _ _
+    | exact Rel.recStr hrec _
+
+omit hle in
+theorem Rel.fmtObjectPart (p : Format.Part) (o : OId) (out : List Char) (d : Nat) :
+    Rel (fmtObjectPart r p o out d) (fmtObjectPart r' p o out d) := by
+  unfold Rsj.Eval.fmtObjectPart
+  rel_all hle hrec
+  all_goals first
+    | exact Rel.fmtObjectCode hrec _ _ _
+    | exact Rel.fmtItem hrec _ _ _
+    | exact Rel.coerceToString hrec _ _
+    | exact Rel.recStr hrec _
+
+omit hle in
+theorem Rel.fmtObject (parts : List Format.Part) (o : OId) (d : Nat) :
+    Rel (fmtObject r parts o d) (fmtObject r' parts o d) := by
+  unfold Rsj.Eval.fmtObject
+  rel_all hle hrec
+  all_goals first
+    | exact Rel.fmtObjectPart hrec _ _ _ _
+    | exact Rel.fmtObjectCode hrec _ _ _
+    | exact Rel.fmtItem hrec _ _ _
+    | exact Rel.coerceToString hrec _ _
+    | exact Rel.recStr hrec _
+
+omit hle in
+theorem Rel.pureFinish (spec : PureSpec) (vals : List Value) (d1 : Nat) :
+    Rel (pureFinish r spec vals d1) (pureFinish r' spec vals d1) := by
+  unfold Rsj.Eval.pureFinish
+  rel_all hle hrec
+  all_goals first
+    | exact Rel.forceBytes hrec _ _ _
+    | exact Rel.fmtArray hrec _ _ _
+    | exact Rel.fmtObject hrec _ _ _
+    | exact Rel.fmtArrayPart hrec _ _ _ _ _
+    | exact Rel.fmtObjectPart hrec _ _ _ _
+    | exact Rel.fmtArrayCode hrec _ _ _ _
+    | exact Rel.fmtObjectCode hrec _ _ _
+    | exact Rel.fmtForceOpt hrec _ _
+    | exact Rel.fmtItem hrec _ _ _
+    | exact Rel.recStr hrec _
+    | exact Rel.coerceToString hrec _ _
+
+theorem Rel.binaryOp3 (op : BinOp) (l rr : Value) (d : Nat) (hs : Bool) :
+    Rel (binaryOp3 { maxStack := s } r op l rr d hs) (binaryOp3 { maxStack := s' } r' op l rr d hs) := by
+  unfold Rsj.Eval.binaryOp3
+  rel_all hle hrec
+  all_goals first
+    | exact Rel.binaryOp hle hrec _ _ _ _ _
+    | exact Rel.pureFinish hrec _ _ _
+    | exact Rel.forceBytes hrec _ _ _
+    | exact Rel.fmtArray hrec _ _ _
+    | exact Rel.fmtObject hrec _ _ _
+    | exact Rel.fmtArrayPart hrec _ _ _ _ _
+    | exact Rel.fmtObjectPart hrec _ _ _ _
+    | exact Rel.coerceToString hrec _ _
+
+omit hle in
+/-- the generic pure builtin does not look at the frame limit -/
+theorem Rel.std_pure (spec : PureSpec) (ts : List TId) (d1 : Nat) :
+    Rel (std_pure r spec ts d1) (std_pure r' spec ts d1) := by
+  unfold Rsj.Eval.std_pure
+  rel_all hle hrec
+  all_goals first
+    | exact Rel.forceAll hrec _ _
+    | exact Rel.coerceAll hrec _ _
+    | exact Rel.pureFinish hrec _ _ _
+    | exact Rel.forceBytes hrec _ _ _
+    | exact Rel.fmtArray hrec _ _ _
+    | exact Rel.fmtObject hrec _ _ _
+    | exact Rel.fmtArrayPart hrec _ _ _ _ _
+    | exact Rel.fmtObjectPart hrec _ _ _ _
+    | exact Rel.recStr hrec _
+    | exact Rel.coerceToString hrec _ _
+
+theorem Rel.builtinCall3 (b : Builtin) (ts : List TId) (d1 : Nat) :
+    Rel (builtinCall3 { maxStack := s } r b ts d1) (builtinCall3 { maxStack := s' } r' b ts d1) := by
+  unfold Rsj.Eval.builtinCall3
+  rel_all hle hrec
+  all_goals first
+    | exact Rel.std_pure hrec _ _ _
+    | exact Rel.builtinCall2 hle hrec _ _ _
+    | exact Rel.forceAll hrec _ _
+    | exact Rel.coerceAll hrec _ _
+    | exact Rel.pureFinish hrec _ _ _
+    | exact Rel.forceBytes hrec _ _ _
+    | exact Rel.fmtArray hrec _ _ _
+    | exact Rel.fmtObject hrec _ _ _
+    | exact Rel.fmtArrayPart hrec _ _ _ _ _
+    | exact Rel.fmtObjectPart hrec _ _ _ _
+    | exact Rel.recStr hrec _
+    | exact Rel.coerceToString hrec _ _
+
 theorem Rel.thunkBody (p : Pending) (d : Nat) :
     Rel (thunkBody { maxStack := s } r p d) (thunkBody { maxStack := s' } r' p d) := by
   unfold Rsj.Eval.thunkBody
@@ -407,6 +574,7 @@ theorem Rel.step (t : Task) :
   rel_all hle hrec
   all_goals first
     | exact Rel.binaryOp hle hrec _ _ _ _ _
+    | exact Rel.binaryOp3 hle hrec _ _ _ _ _
     | exact Rel.coerceToString hrec _ _
     | exact Rel.compareLists hle hrec _ _ _
     | exact Rel.evalSpecs hrec _ _ _
@@ -416,7 +584,7 @@ theorem Rel.step (t : Task) :
     | exact Rel.recStr hrec _
     | exact Rel.objectMember hrec _ _ _ _
     | exact Rel.sliceArg hrec _ _ _
-    | exact Rel.builtinCall2 hle hrec _ _ _
+    | exact Rel.builtinCall3 hle hrec _ _ _
     | exact Rel.thunkBody hle hrec _ _
 end
 
